@@ -430,6 +430,9 @@ class TemplateGen:
 
 # ----------------------------------------------------------------------------- C08
 
+LEXEMES_NUL = LEXEMES + [b"\x00"]
+
+
 class C08(Prop):
     timeout_ms = 4000
     rule = ("(a) every sequence of up to 2 lexemes from the 76-lexeme alphabet (exhaustive) and sampled (quick) or all "
@@ -448,19 +451,19 @@ class C08(Prop):
 
     def generate(self, rng, tier):
         cases = []   # (idprefix, kind, bytes)
-        for a in LEXEMES:
+        for a in LEXEMES_NUL:
             cases.append(("C08", "parse", a))
-            for b in LEXEMES:
+            for b in LEXEMES_NUL:
                 cases.append(("C08", "parse", a + b))
-        ntri = {"quick": 12000, "thorough": len(LEXEMES) ** 3, "search": 30000}[tier]
+        ntri = {"quick": 12000, "thorough": len(LEXEMES_NUL) ** 3, "search": 30000}[tier]
         if tier == "thorough":
-            for a in LEXEMES:
-                for b in LEXEMES:
-                    for c in LEXEMES:
+            for a in LEXEMES_NUL:
+                for b in LEXEMES_NUL:
+                    for c in LEXEMES_NUL:
                         cases.append(("C08", "parse", a + b + c))
         else:
             for _ in range(ntri):
-                cases.append(("C08", "parse", rng.choice(LEXEMES) + rng.choice(LEXEMES) + rng.choice(LEXEMES)))
+                cases.append(("C08", "parse", rng.choice(LEXEMES_NUL) + rng.choice(LEXEMES_NUL) + rng.choice(LEXEMES_NUL)))
         ntpl = {"quick": 400, "thorough": 5000, "search": 1500}[tier]
         tg = TemplateGen(rng)
         for _ in range(ntpl):
@@ -496,7 +499,7 @@ class C08(Prop):
         for _ in range(nsoup):
             k = rng.choice([4, 5, 6, 8, 12, 20, 30])
             cases.append(("C08", rng.choice(["parse", "parse", "parse", "render", "lex"]),
-                          b"".join(rng.choice(LEXEMES) for _ in range(k))))
+                          b"".join(rng.choice(LEXEMES_NUL) for _ in range(k))))
         lines = ["%s:%d\t%s\t%s" % (p, i, k, hx(s)) for i, (p, k, s) in enumerate(cases)]
         dist = distribution([s for _, _, s in cases])
         dist["must_be_rejected"] = sum(1 for p, _, _ in cases if p == "C08e")
@@ -716,3 +719,358 @@ class C10(Prop):
 
 
 PROPS["C10"] = C10()
+
+
+# ----------------------------------------------------------------------------- template specs (C02, C03, C04)
+
+def T(s):
+    return "(text %s)" % hx(s)
+
+
+def B(nodes):
+    return "(b %s)" % " ".join(nodes) if nodes else "(b)"
+
+
+# (expression, truthiness) with every value kind; None = evaluation fails
+CONDS = [
+    ("(bool 1)", True), ("(bool 0)", False), ("(nil)", False), ("(int 0)", False), ("(int 1)", True), ("(neg (int 1))", True),
+    ("(float 0 1)", False), ("(float 5 1)", True), ("(str - 1)", False), ("(str %s 1)" % hx("a"), True),
+    ("(str %s 0)" % hx("0"), True), ("(arr)", True), ("(arr (int 0))", True), ("(obj)", True), ("(var dt)", True),
+    ("(var df)", False), ("(var dz)", False), ("(var dfz)", False), ("(var de)", False), ("(var dn)", False),
+    ("(var da)", True), ("(var dea)", True), ("(var dobj)", True), ("(var ds)", True), ("(var dnegz)", False),
+    ("(bin eq (var di) (int 3))", True), ("(bin lt (var di) (int 3))", False), ("(var zz)", None),
+    ("(bin add (int 1) (str %s 1))" % hx("s"), None), ("(bin div (int 1) (int 0))", None), ("(prop (var di) k)", None),
+]
+COND_DATA = {
+    "dt": "(bool 1)", "df": "(bool 0)", "dz": "(int 0)", "dfz": "(f64 %s)" % f64bits(0.0), "de": "(str -)", "dn": "(nil)",
+    "da": "(slice (int 1))", "dea": "(slice)", "dobj": "(map)", "ds": "(str %s)" % hx("x"), "di": "(int 3)",
+    "dnegz": "(f64 %s)" % f64bits(-0.0),
+    "arr3": "(slice (int 10) (int 20) (int 30))", "strs": "(slice (str 61) (str 62))", "empty": "(slice)",
+    "users": "(slice (struct (Name (str 616e6e)) (Age (int 30))) (struct (Name (str 626f62)) (Age (int 7))))",
+    "nested": "(slice (slice (int 1) (int 2)) (slice) (slice (int 3)))", "px": "(int 5)", "ps": "(str %s)" % hx("pre"),
+}
+
+
+def cond_data():
+    return "(" + " ".join("(%s %s)" % (hx(k), v) for k, v in COND_DATA.items()) + ")"
+
+
+class C02(Prop):
+    rule = ("specification templates printed by the extracted printer and run by the extracted big-step semantics: "
+            "every branch shape with 0..3 @elseif and with/without @else x condition vectors drawn from 31 condition "
+            "expressions of every value kind (literals and data-supplied; 4 of them fail to evaluate) placed so that "
+            "every position is chosen, including failing conditions after the chosen branch; nesting to depth 3 inside "
+            "each other and inside @each; empty bodies; text before, between and after; the same truthiness table "
+            "through the ternary, @breakIf and @continueIf. Non-trivial: at least one @elseif or nesting; distinct = "
+            "distinct source.")
+    explanation = ("Theorems: on the specification, the first truthy branch is rendered, later conditions are not "
+                   "evaluated, text around the construct is unaffected; one truthiness predicate serves @if, ternary, "
+                   "@breakIf, @continueIf and equals the model's isTruthy. Correspondence: render model = implementation. "
+                   "Oracle: implementation output = specification output, error iff the specification says so.")
+    assumptions = ["@break/@continue appear only inside loops"]
+
+    def branch_body(self, rng, tag, depth):
+        nodes = [T(tag)]
+        if depth > 0 and rng.random() < 0.35:
+            nodes.append(self.if_node(rng, depth - 1))
+        if rng.random() < 0.15:
+            nodes = []
+        return nodes
+
+    def if_node(self, rng, depth, force=None):
+        n_elif = rng.choice([0, 0, 1, 2, 3]) if force is None else force[0]
+        has_else = rng.random() < 0.5 if force is None else force[1]
+        conds = [rng.choice(CONDS) for _ in range(1 + n_elif)]
+        thn = B(self.branch_body(rng, "T", depth))
+        elifs = " ".join("(%s %s)" % (conds[i + 1][0], B(self.branch_body(rng, "E%d" % i, depth))) for i in range(n_elif))
+        els = B(self.branch_body(rng, "L", depth)) if has_else else "none"
+        return "(if %s %s (elifs %s) %s)" % (conds[0][0], thn, elifs, els)
+
+    def generate(self, rng, tier):
+        data = hx(cond_data())
+        tpls = []
+        # systematic: every shape x every position of the first truthy condition x failing conditions later
+        truthy = [c for c in CONDS if c[1] is True]
+        falsy = [c for c in CONDS if c[1] is False]
+        failing = [c for c in CONDS if c[1] is None]
+        for n_elif in range(0, 4):
+            for has_else in (False, True):
+                for first in range(0, n_elif + 2):          # index of first truthy; n_elif+1 = none
+                    for rep in range({"quick": 6, "thorough": 40, "search": 10}[tier]):
+                        cs = []
+                        for i in range(n_elif + 1):
+                            if i < first:
+                                cs.append(rng.choice(falsy))
+                            elif i == first:
+                                cs.append(rng.choice(truthy))
+                            else:
+                                cs.append(rng.choice(truthy + falsy + failing + failing))
+                        if rep % 5 == 4 and first <= n_elif:
+                            cs[rng.randrange(0, first + 1)] = rng.choice(failing)   # a failing condition that IS evaluated
+                        thn = B([T("T")] if rng.random() < 0.85 else [])
+                        elifs = " ".join("(%s %s)" % (cs[i + 1][0], B([T("E%d" % i)] if rng.random() < 0.85 else []))
+                                         for i in range(n_elif))
+                        els = (B([T("L")]) if rng.random() < 0.85 else B([])) if has_else else "none"
+                        node = "(if %s %s (elifs %s) %s)" % (cs[0][0], thn, elifs, els)
+                        tpls.append(B([T("<"), node, T(">")]))
+        # nesting, inside each, truthiness through ternary / breakIf / continueIf
+        for _ in range({"quick": 1500, "thorough": 20000, "search": 5000}[tier]):
+            k = rng.random()
+            if k < 0.5:
+                tpls.append(B([T("a"), self.if_node(rng, 3), T("b"), self.if_node(rng, 2), T("c")]))
+            elif k < 0.75:
+                body = [T("["), self.if_node(rng, 2), T("]")]
+                tpls.append(B([T("a"), "(each v (var arr3) %s none)" % B(body), T("z")]))
+            elif k < 0.85:
+                c = rng.choice(CONDS)
+                tpls.append(B([T("t:"), "(print (tern %s (str %s 1) (str %s 1)))" % (c[0], hx("Y"), hx("N"))]))
+            else:
+                c = rng.choice(CONDS)
+                kind = rng.choice(["breakif", "continueif"])
+                body = [T("("), "(print (var v))", "(%s %s)" % (kind, c[0]), T(")")]
+                tpls.append(B(["(each v (var arr3) %s none)" % B(body), T("$")]))
+        lines = ["C02:%d\txtpl\t%s\t%s" % (i, hx(t), data) for i, t in enumerate(tpls)]
+        dist = collections.Counter()
+        for t in tpls:
+            dist["elifs=%d" % min(3, t.count("(elifs (") and t.split("(elifs ")[1].count("(b") or 0)] += 1
+        return lines, {"exhaustive": False, "distribution": dict(dist), "conditions": len(CONDS)}
+
+    def nontrivial(self, r):
+        return "656c7365" in r["case"] or r["case"].count("406966") >= 2    # "else" / two "@if"
+
+
+PROPS["C02"] = C02()
+
+
+class C03(Prop):
+    rule = ("specification templates: @each over arrays of length 0..5 (ints, strings, data-supplied structs, nested "
+            "arrays) printing loop.index/iter/first/last, with @break/@continue/@breakIf/@continueIf at every position "
+            "of a 3-statement body, also under one and two nested @if/@elseif; loops nested to depth 2 with both using "
+            "loop.*; @else bodies (with control directives acting on the enclosing loop); @for with bounds -2..3, "
+            "steps ++ / -- / assignment, absent clauses with @break; iterating non-arrays. Non-trivial: a control "
+            "directive or nesting is present; distinct = distinct source.")
+    explanation = ("Theorems: on the specification the i-th pass sees index=i, iter=i+1, first=(i=0), last=(i=n-1); break "
+                   "ends the innermost loop after what preceded it, continue skips the rest of the pass; the model's "
+                   "marker-object scan through nested Blocks equals the specification's signals. Correspondence: render "
+                   "model = implementation. Oracle: implementation output = specification output.")
+    assumptions = ["@break/@continue appear only inside loops; a loop's @else contains them only when another loop encloses it",
+                   "the post clause of @for updates the variable bound by its init clause"]
+
+    ARRS = ["(arr)", "(arr (int 7))", "(arr (int 1) (int 2))", "(arr (int 1) (int 2) (int 3))",
+            "(arr (int 1) (int 2) (int 3) (int 4))", "(arr (int 1) (int 2) (int 3) (int 4) (int 5))", "(var arr3)", "(var strs)",
+            "(var empty)", "(arr (str %s 1) (str %s 1) (str %s 1))" % (hx("a"), hx("b"), hx("c"))]
+
+    def meta(self):
+        return ["(print (prop (var loop) index))", T("/"), "(print (prop (var loop) iter))", T("/"),
+                "(print (prop (var loop) first))", "(print (prop (var loop) last))"]
+
+    def ctl(self, rng, var):
+        k = rng.choice(["break", "continue", "breakif", "continueif"])
+        if k in ("break", "continue"):
+            c = "(%s)" % k
+            # make it conditional so that several passes happen
+            cond = rng.choice(["(bin eq (prop (var loop) index) (int 1))", "(prop (var loop) last)", "(bool 1)",
+                               "(bin gt (prop (var loop) iter) (int 2))", "(prop (var loop) first)"])
+            w = rng.random()
+            if w < 0.4:
+                return "(if %s %s (elifs) none)" % (cond, B([T("!"), c, T("?")]))
+            if w < 0.6:
+                return "(if (bool 0) %s (elifs (%s %s)) none)" % (B([T("n")]), cond, B([c]))
+            if w < 0.8:
+                return "(if %s %s (elifs) none)" % (cond, B(["(if (bool 1) %s (elifs) none)" % B([T("~"), c])]))
+            return c
+        cond = rng.choice(["(bin eq (prop (var loop) index) (int 1))", "(prop (var loop) last)", "(bool 1)", "(bool 0)", "(nil)",
+                           "(bin ge (prop (var loop) iter) (int 2))", "(int 0)", "(str - 1)", "(str %s 1)" % hx("x")])
+        return "(%s %s)" % (k, cond)
+
+    def each(self, rng, depth, var):
+        body = [T("["), "(print (var %s))" % var, T(":")] + (self.meta() if rng.random() < 0.6 else []) + [T("]")]
+        if rng.random() < 0.7:
+            body.insert(rng.randrange(len(body) + 1), self.ctl(rng, var))
+        if depth > 0 and rng.random() < 0.5:
+            inner = self.each(rng, depth - 1, var + "i")
+            body.insert(rng.randrange(len(body) + 1), inner)
+            if rng.random() < 0.5:
+                body.append("(print (prop (var loop) index))")      # the outer loop object is restored
+        arr = rng.choice(self.ARRS)
+        els = "none"
+        if rng.random() < 0.4:
+            eb = [T("EMPTY")]
+            if var != "v" and rng.random() < 0.5:                  # an enclosing loop exists
+                eb.append(rng.choice(["(break)", "(continue)", "(breakif (bool 1))", "(continueif (prop (var loop) first))"]))
+                eb.append(T("after"))
+            els = B(eb)
+        return "(each %s %s %s %s)" % (var, arr, B(body), els)
+
+    def forloop(self, rng, var="i"):
+        lo, hi = rng.randrange(-2, 4), rng.randrange(-2, 4)
+        up = rng.random() < 0.7
+        init = "(init %s %s)" % (var, "(int %d)" % lo if lo >= 0 else "(neg (int %d))" % -lo)
+        bound = "(int %d)" % hi if hi >= 0 else "(neg (int %d))" % -hi
+        cond = "(bin %s (var %s) %s)" % (rng.choice(["lt", "le"]) if up else rng.choice(["gt", "ge"]), var, bound)
+        post = rng.choice(["(inc %s)", "(set %s (bin add (var %s) (int 1)))"] if up else
+                          ["(dec %s)", "(set %s (bin sub (var %s) (int 1)))"])
+        post = post % ((var,) * post.count("%s"))
+        body = [T("("), "(print (var %s))" % var, T(")")]
+        if rng.random() < 0.5:
+            c = rng.choice(["(breakif (bin eq (var %s) (int 1)))" % var, "(continueif (bin eq (var %s) (int 0)))" % var,
+                            "(if (bin eq (var %s) (int 2)) %s (elifs) none)" % (var, B(["(break)"]))])
+            body.insert(rng.randrange(len(body) + 1), c)
+        els = B([T("NONE")]) if rng.random() < 0.4 else "none"
+        w = rng.random()
+        if w < 0.12:      # absent condition: needs a break
+            body.append("(breakif (bin ge (var %s) (int 3)))" % var if up else "(breakif (bin le (var %s) (neg (int 3))))" % var)
+            cond = "none"
+        elif w < 0.2:     # absent post: the body advances the variable itself is not expressible, break instead
+            body.append("(break)")
+            post = "none"
+        return "(for %s %s %s %s %s)" % (init, cond, post, B(body), els)
+
+    def generate(self, rng, tier):
+        data = hx(cond_data())
+        tpls = []
+        # systematic: every length x every position of each control directive in a 3-statement body
+        for n in range(0, 6):
+            arr = "(arr %s)" % " ".join("(int %d)" % (i + 1) for i in range(n)) if n else "(arr)"
+            for pos in range(0, 4):
+                for ctl in ["(break)", "(continue)", "(breakif (bin eq (var v) (int 2)))", "(continueif (bin eq (var v) (int 2)))",
+                            "(if (bin eq (var v) (int 3)) %s (elifs) none)" % B(["(break)"]),
+                            "(if (bool 0) (b) (elifs ((prop (var loop) last) %s)) none)" % B(["(continue)"]),
+                            "(if (bin gt (var v) (int 1)) %s (elifs) none)" % B(["(if (bool 1) %s (elifs) none)" % B(["(break)"])])]:
+                    body = [T("a"), "(print (var v))", T("b")]
+                    body.insert(pos, ctl)
+                    for els in ("none", B([T("E")])):
+                        tpls.append(B([T("<"), "(each v %s %s %s)" % (arr, B(body + self.meta()), els), T(">")]))
+        for _ in range({"quick": 2500, "thorough": 40000, "search": 8000}[tier]):
+            k = rng.random()
+            if k < 0.55:
+                tpls.append(B([T("<"), self.each(rng, 2, "v"), T(">")]))
+            elif k < 0.85:
+                tpls.append(B([T("<"), self.forloop(rng), T(">")]))
+            elif k < 0.93:
+                inner = self.forloop(rng, "j")
+                tpls.append(B(["(each v (var arr3) %s none)" % B([inner, T(";"), "(print (prop (var loop) iter))"])]))
+            else:
+                bad = rng.choice(["(int 5)", "(str %s 1)" % hx("abc"), "(var dobj)", "(nil)", "(var zz)", "(bool 1)"])
+                tpls.append(B([T("<"), "(each v %s %s none)" % (bad, B([T("x")])), T(">")]))
+        lines = ["C03:%d\txtpl\t%s\t%s" % (i, hx(t), data) for i, t in enumerate(tpls)]
+        dist = collections.Counter()
+        for t in tpls:
+            dist["each" if "(each" in t else "for"] += 1
+            if "(break" in t or "(continue" in t:
+                dist["with_control"] += 1
+        return lines, {"exhaustive": False, "distribution": dict(dist)}
+
+    def nontrivial(self, r):
+        c = r["case"]
+        return "40627265616b" in c or "40636f6e74696e7565" in c or c.count("4065616368") + c.count("40666f72") >= 2
+
+
+PROPS["C03"] = C03()
+
+
+class C04(Prop):
+    rule = ("specification templates: sequences of up to 4 assignments and reads over the names {x, y} placed at every "
+            "nesting position of skeletons built from @if / @elseif / @else / @each / @for nested to depth 2; values of "
+            "the types int, float, string, bool, nil, array, object in all ordered pairs for re-assignment and for "
+            "loop-variable binding; data maps pre-binding any subset of the names; the reserved name loop as "
+            "assignment target, loop variable and data key. Non-trivial: at least one assignment inside a nested "
+            "block; distinct = distinct source + data.")
+    explanation = ("Theorems: Env set/get invariants by induction over operation sequences - a nested block never "
+                   "changes what the enclosing block sees, every name's type is stable under successful assignments, "
+                   "'loop' is never assignable; the model's statement evaluation leaves all outer frames unchanged. "
+                   "Correspondence: render model = implementation. Oracle: implementation output = specification output.")
+    TYPES = {"int": ["(int 1)", "(int 2)"], "float": ["(float 15 1)", "(float 25 1)"], "str": ["(str %s 1)" % hx("s"), "(str %s 1)" % hx("t")],
+             "bool": ["(bool 1)", "(bool 0)"], "nil": ["(nil)"], "arr": ["(arr (int 1))", "(arr)"], "obj": ["(obj (k (int 1)))"]}
+    DATAV = {"int": "(int 9)", "float": "(f64 %s)" % f64bits(0.5), "str": "(str %s)" % hx("d"), "bool": "(bool 1)", "nil": "(nil)",
+             "arr": "(slice (int 4))", "obj": "(map (%s (int 2)))" % hx("k")}
+
+    def val(self, rng, ty):
+        return rng.choice(self.TYPES[ty])
+
+    def op(self, rng, names):
+        n = rng.choice(names)
+        k = rng.random()
+        if k < 0.5:
+            return "(assign %s %s)" % (n, self.val(rng, rng.choice(list(self.TYPES))))
+        if k < 0.6:
+            return "(assign %s (bin add (var %s) (int 1)))" % (n, n)
+        return "(print (var %s))" % n
+
+    def seq(self, rng, names, k):
+        out = []
+        for _ in range(k):
+            out += [self.op(rng, names), T(",")]
+        return out
+
+    def skeleton(self, rng, depth, names):
+        inner = self.seq(rng, names, rng.choice([1, 2]))
+        if depth > 0 and rng.random() < 0.7:
+            inner.insert(rng.randrange(len(inner) + 1), self.skeleton(rng, depth - 1, names))
+        k = rng.random()
+        if k < 0.35:
+            return "(if (bool 1) %s (elifs) none)" % B(inner)
+        if k < 0.5:
+            return "(if (bool 0) %s (elifs ((bool 1) %s)) %s)" % (B(self.seq(rng, names, 1)), B(inner), B(self.seq(rng, names, 1)))
+        if k < 0.6:
+            return "(if (bool 0) %s (elifs) %s)" % (B(self.seq(rng, names, 1)), B(inner))
+        if k < 0.82:
+            lv = rng.choice(["x", "y", "e", "loop"] if rng.random() < 0.3 else ["e", "x"])
+            arr = rng.choice(["(arr (int 1) (int 2))", "(arr (str %s 1))" % hx("q"), "(arr (float 5 1))", "(var arr3)", "(var strs)"])
+            return "(each %s %s %s none)" % (lv, arr, B(inner + ["(print (var %s))" % lv]))
+        var = rng.choice(["i", "x", "y"])
+        return "(for (init %s (int 0)) (bin lt (var %s) (int 2)) (inc %s) %s none)" % (var, var, var, B(inner))
+
+    def generate(self, rng, tier):
+        cases = []
+        names = ["x", "y"]
+        types = list(self.TYPES)
+        # systematic: re-assignment type pairs, same scope / nested / loop variable
+        for a in types:
+            for b in types:
+                va, vb = self.TYPES[a][0], self.TYPES[b][-1]
+                for shape in range(6):
+                    if shape == 0:
+                        t = B(["(assign x %s)" % va, "(assign x %s)" % vb, "(print (var x))"])
+                    elif shape == 1:
+                        t = B(["(assign x %s)" % va, "(if (bool 1) %s (elifs) none)" % B(["(assign x %s)" % vb, "(print (var x))"]), T("|"),
+                               "(print (var x))"])
+                    elif shape == 2:
+                        t = B(["(assign x %s)" % va, "(if (bool 1) %s (elifs) none)" % B(
+                            ["(if (bool 1) %s (elifs) none)" % B(["(assign x %s)" % vb, "(print (var x))"])]), T("|"), "(print (var x))"])
+                    elif shape == 3:
+                        t = B(["(assign x %s)" % va, "(each x (arr %s) %s none)" % (vb, B(["(print (var x))"])), T("|"), "(print (var x))"])
+                    elif shape == 4:
+                        t = B(["(assign x %s)" % va, "(each e (arr (int 1)) %s none)" % B(
+                            ["(if (bool 1) %s (elifs) none)" % B(["(each x (arr %s) %s none)" % (vb, B(["(print (var x))"]))])]),
+                               "(print (var x))"])
+                    else:
+                        t = B(["(if (bool 1) %s (elifs) none)" % B(["(assign x %s)" % va]), "(assign x %s)" % vb, "(print (var x))"])
+                    for pre in (None, a, b):
+                        d = "((%s %s))" % (hx("x"), self.DATAV[pre]) if pre else "-"
+                        cases.append((t, d))
+        # the reserved name
+        for t in [B(["(assign loop (int 1))"]), B(["(each loop (arr (int 1)) %s none)" % B([T("x")])]),
+                  B(["(each v (arr (int 1)) %s none)" % B(["(assign loop (int 2))"])]), B([T("ok")])]:
+            cases.append((t, "-"))
+            cases.append((t, "((%s (int 1)))" % hx("loop")))
+        for _ in range({"quick": 4000, "thorough": 60000, "search": 12000}[tier]):
+            nodes = self.seq(rng, names, rng.choice([0, 1, 2])) + [self.skeleton(rng, 2, names)] + self.seq(rng, names, rng.choice([1, 2]))
+            pre = [n for n in names if rng.random() < 0.35]
+            d = "(" + " ".join("(%s %s)" % (hx(n), self.DATAV[rng.choice(types)]) for n in pre) + ")" if pre else "-"
+            if rng.random() < 0.03:
+                d = "((%s (int 1)))" % hx("loop")
+            cases.append((B(nodes), d))
+        base = cond_data()[1:-1]
+        lines = []
+        for i, (t, d) in enumerate(cases):
+            dd = "(" + base + (" " + d[1:-1] if d != "-" else "") + ")"
+            lines.append("C04:%d\txtpl\t%s\t%s" % (i, hx(t), hx(dd)))
+        return lines, {"exhaustive": False, "distribution": {"cases": len(cases), "type_pairs": len(types) ** 2}}
+
+    def nontrivial(self, r):
+        c = r["case"]
+        return "406966" in c or "4065616368" in c or "40666f72" in c
+
+
+PROPS["C04"] = C04()
